@@ -29,6 +29,7 @@ OUTSIDE = ['bibliography keys (\\bibitem/\\cite)', 'labels in floats/theorems/it
 BUDGET_S = {'quick': 900, 'thorough': 3300}
 
 ITEMS = ['O', 'E', 'L0', 'L1', 'R0', 'R1', 'R2', 'P0']
+# T0/T1: a section whose title contains the label and which is followed by nothing (the labelled node has no children yet)
 
 
 def histories(n):
@@ -57,7 +58,8 @@ def hist(n):
 
 
 SPECIAL = [('R0', 'R0', 'R0', 'O', 'L0', 'R0'), ('O', 'R0', 'O', 'R0', 'L0', 'O', 'R0'), ('R0', 'R1', 'O', 'L1', 'O', 'L0', 'R1'),
-           ('O', 'L0', 'O', 'L1', 'R0', 'R1', 'R2'), ('R2', 'O', 'L0', 'R2', 'E', 'L1', 'R2'), ('P0', 'R0', 'O', 'E', 'L0', 'P0')]
+           ('O', 'L0', 'O', 'L1', 'R0', 'R1', 'R2'), ('R2', 'O', 'L0', 'R2', 'E', 'L1', 'R2'), ('P0', 'R0', 'O', 'E', 'L0', 'P0'),
+           ('T0', 'R0'), ('T0', 'R0', 'O', 'R0'), ('R0', 'T0', 'R0', 'R2'), ('T0', 'T1', 'R0', 'R1'), ('O', 'T1', 'R1', 'L0', 'R0'), ('T0', 'P0', 'E', 'L1', 'R1', 'R0')]
 
 
 def reset():
@@ -81,12 +83,14 @@ def h_refs(e, fam, lo, hi, nch=2):
             cs.append(c)
         L.append(api.cat(cs))
     S = [_strip(x) for x in L]
-    if 'L1' in h:
+    if ('L1' in h or 'T1' in h) and ('L0' in h or 'T0' in h):
         e.assume(api.not_(eq(S[0], S[1])))          # each label defined once
     src = ['\\documentclass{article}\\begin{document}']
     for it in h:
         if it == 'O':
             src.append('\\section{T}x ')
+        elif it[0] == 'T':
+            src += ['\\section{T\\label{', L[int(it[1])], '}}']
         elif it == 'E':
             src.append('\\begin{equation}y\\end{equation}')
         elif it[0] == 'L':
@@ -118,7 +122,7 @@ def h_refs(e, fam, lo, hi, nch=2):
                     refs.append(c)
                 walk(c)
     walk(out)
-    nobj = sum(1 for x in h if x in 'OE')
+    nobj = sum(1 for x in h if x in 'OE' or x[0] == 'T')
     nref = sum(1 for x in h if x[0] in 'RP')
     e.check(len(objs) == nobj and len(refs) == nref, 'objects/references found %d/%d, written %d/%d' % (len(objs), len(refs), nobj, nref), 'structure')
     if len(objs) != nobj or len(refs) != nref:
@@ -131,6 +135,12 @@ def h_refs(e, fam, lo, hi, nch=2):
         if it in 'OE':
             cur = oi
             oi += 1
+        elif it[0] == 'T':
+            cur = oi
+            oi += 1
+            v = int(it[1])
+            if len(S[v]) > 0:
+                target[v] = cur
         elif it[0] == 'L':
             v = int(it[1])
             if len(S[v]) > 0 and cur is not None:
@@ -163,6 +173,63 @@ def h_refs(e, fam, lo, hi, nch=2):
         e.check(api.or_(False, _any([eq(objs[obj].id, m) for m in mine])), 'labelled object\'s id is not its label', 'object-id')
     e.check(len(doc.context.refs) == 0 or all(not _defined(k, S, target) for k in list(doc.context.refs.keys())), 'pending references left for a defined label', 'pending-left')
     e.observe([[getattr(r.idref.get('label'), 'nodeName', None), (id(r.idref.get('label')) in allnodes)] for r in refs])
+    e.nontriv()
+
+
+def h_eqn(e):
+    """labels in the rows of an eqnarray: each reference lands on a node of the document that carries the row's number"""
+    doc = TeXDocument()
+    rows = 3
+    la, lb = e.choice(rows, 'rowA'), e.choice(rows, 'rowB')
+    if la == lb:
+        return
+    L = []
+    for v in range(2):
+        cs = []
+        for i in range(2):
+            c = e.char('l%d_%d' % (v, i), 97, 98)
+            cs.append(c)
+        L.append(api.cat(cs))
+    e.assume(api.not_(eq(L[0], L[1])))
+    src = ['\\documentclass{article}\\begin{document}\\begin{equation}z\\end{equation}\\begin{eqnarray}']
+    for r in range(rows):
+        src.append('a&=&b')
+        if r == la:
+            src += ['\\label{', L[0], '}']
+        if r == lb:
+            src += ['\\label{', L[1], '}']
+        if r + 1 < rows:
+            src.append('\\\\')
+    src += ['\\end{eqnarray}\\ref{', L[0], '}\\ref{', L[1], '}\\end{document}']
+    chars = []
+    for p in src:
+        chars.extend(api.chars(p))
+    tex = TeX(doc)
+    tex.input(Src(chars))
+    try:
+        out = tex.parse()
+    except (KeyError, ValueError, TypeError, IndexError, AttributeError) as ex:
+        e.fail_exception(ex)
+        return
+    refs, allnodes = [], set()
+
+    def walk(n):
+        for c in n.childNodes:
+            if getattr(c, 'nodeType', None) == 1:
+                allnodes.add(id(c))
+                if c.nodeName == 'ref':
+                    refs.append(c)
+                walk(c)
+    walk(out)
+    e.check(len(refs) == 2, 'references found: %d' % len(refs), 'structure')
+    if len(refs) != 2:
+        return
+    for node, row in zip(refs, (la, lb)):
+        got = node.idref.get('label')
+        e.check(got is not None and id(got) in allnodes, 'reference to a label in eqnarray row %d does not resolve to a node of the document' % (row + 1), 'wrong-target:eqnarray')
+        num = getattr(got, 'ref', None)
+        e.check(num is not None and eq(api.text_of(num.textContent), str(row + 2)),
+                'reference to a label in eqnarray row %d shows number %r instead of %d' % (row + 1, None if num is None else str(num.textContent), row + 2), 'wrong-number:eqnarray')
     e.nontriv()
 
 
@@ -200,7 +267,9 @@ def jobs(tier, seed):
     else:
         fam(4, 1)
         fam(5, 12)
-    J.append(dict(harness='h_refs', params=dict(fam='special', lo=0, hi=len(SPECIAL)), label='long histories'))
+    J.append(dict(harness='h_refs', params=dict(fam='special', lo=0, hi=6), label='long histories'))
+    J.append(dict(harness='h_refs', params=dict(fam='special', lo=6, hi=len(SPECIAL)), label='label in title histories'))
+    J.append(dict(harness='h_eqn', params={}, label='eqnarray rows'))
     if not q:
         J.append(dict(harness='h_refs', params=dict(fam='special', lo=0, hi=len(SPECIAL), nch=3), label='long histories 3-char labels'))
     return J
